@@ -23,6 +23,7 @@ import (
 
 type bhGenerator struct {
 	r        *Rng
+	fresh    int    // counter of never-used addresses paid by generated programs
 	focus    string // "" or a /repo directory whose code the history should exercise more
 	nblocks  int
 	downFrom int // downtime campaign: validator index absent during [downFrom, downTo)
@@ -240,6 +241,14 @@ func (g *bhGenerator) genProgram(depth int, origin int, self int) []bhInstr {
 		case k < 38:
 			out = append(out, bhInstr{Op: "balance", T: r.Intn(bhNU + bhNC)})
 		case k < 50:
+			if r.Chance(25) {
+				// pay several addresses that do not exist yet: one transaction creates several accounts
+				for j, m := 0, 2+r.Intn(5); j < m; j++ {
+					g.fresh++
+					out = append(out, bhInstr{Op: "call", T: 1000 + g.fresh, A: big.NewInt(int64(1 + r.Intn(40))).String(), Catch: true})
+				}
+				continue
+			}
 			out = append(out, bhInstr{Op: "call", T: r.Intn(bhNU), A: big.NewInt(int64(r.Intn(5000))).String(), Catch: r.Bool()})
 		case k < 68 && depth < 2:
 			c := bhNU + r.Intn(bhNC)
